@@ -298,7 +298,12 @@ def summarise_loop(ip, st, fr, H):
                         V[loc] = ("nonrep", loc)
                     if n_ge1:
                         final[loc] = vsub(gv, {}, {var: N - 1}, st.F)
-                    elif loc[0][0] == "L":
+                    elif gv[0] == "bytes" and pre[loc][0] == "bytes":
+                        Fn = st.F.copy()
+                        Fn.add_ge(N - 1)
+                        last = vsub(gv, {}, {var: N - 1}, Fn)
+                        final[loc] = vbytes(T.bnorm((("i", ("eq", N), T.blen(gv[1]), pre[loc][1], last[1]),), st.F))
+                    elif loc[0][0] == "L" and loc[0][1] >= fr.id:
                         final[loc] = ("unknown", "loop temporary")
                     else:
                         raise Undecided("value of %r after a possibly empty loop" % (loc,))
